@@ -153,6 +153,8 @@ inductive Kind where
   | notFound     -- a command that does not exist
   | empty        -- redirections only
   | exec         -- `exec` without operands
+  | paren        -- `( fds )`: the guard is the parent's, the body runs in a child
+  | commandExec  -- `command exec`: a regular built-in whose result asks to retain the redirections
   deriving DecidableEq, Repr
 
 /-- what was seen of one run -/
@@ -188,10 +190,11 @@ def probeIO (w : World) (t : FdTable) : World × Bool × (Option (List Nat) × B
 
 /-- `execute_builtin` / `execute_function` / `execute_external_utility` /
     `FullCompoundCommand::execute` / `execute_absent_target` around the guard -/
-def runCommand (w : World) (t : FdTable) (k : Kind) (rs : List Redir) : Trace :=
+def runCommand (w : World) (t : FdTable) (k : Kind) (rs : List Redir) (prev : Nat := 0) : Trace :=
   match k with
   | .empty =>
-    if rs.isEmpty then { w := w, t := t, status := some 0 } else
+    -- no word, no redirection: there is no command at all and `$?` stays
+    if rs.isEmpty then { w := w, t := t, status := some prev } else
     -- the subshell's table is a copy (`fork_from` does not copy the resource limits)
     let g := performRedirs worldOracle w { t with limit := none } rs
     match g.err with
@@ -208,7 +211,8 @@ def runCommand (w : World) (t : FdTable) (k : Kind) (rs : List Redir) : Trace :=
       else { w := w1, t := t1, status := some 2 }
     | none =>
       match k with
-      | .exec => { w := g.w, t := preserveRedirs g.t g.saved, status := some 0, saved := g.saved }
+      | .exec | .commandExec =>
+        { w := g.w, t := preserveRedirs g.t g.saved, status := some 0, saved := g.saved }
       | .colon => { w := g.w, t := undoRedirs g.t g.saved, status := some 0, saved := g.saved }
       | .notFound =>
         { w := g.w.message g.t, t := undoRedirs g.t g.saved, status := some 127, saved := g.saved }
@@ -216,5 +220,13 @@ def runCommand (w : World) (t : FdTable) (k : Kind) (rs : List Redir) : Trace :=
         let (w1, wrote, rd) := probeIO g.w g.t
         { w := w1, t := undoRedirs g.t g.saved, during := some (g.w, g.t), wrote := some wrote,
           readRes := some rd, status := some 0, saved := g.saved }
+
+/-- a script: one command after the other, each from the world and table the previous one left;
+    nothing runs after the shell has exited.  Returns each command's table-before and trace. -/
+def runScript (w : World) (t : FdTable) (prev : Nat := 0) : List (Kind × List Redir) → List (FdTable × Trace)
+  | [] => []
+  | (k, rs) :: rest =>
+    let tr := runCommand w t k rs prev
+    if tr.exited.isSome then [(t, tr)] else (t, tr) :: runScript tr.w tr.t (tr.status.getD 0) rest
 
 end YashModel.Redir
